@@ -166,6 +166,10 @@ func (i *IPFIX) run() {
 		ipfixUDPCh <- IPFIXUDPMsg{raddr, b[:n]}
 	}
 
+	// the read loop is the only sender: it closes the work queue
+	// once it has stopped, then the workers drain it and exit
+	close(ipfixUDPCh)
+
 }
 
 func (i *IPFIX) shutdown() {
@@ -184,9 +188,8 @@ func (i *IPFIX) shutdown() {
 		logger.Println("couldn't not dump template", err)
 	}
 
-	// logging and close UDP channel
+	// logging
 	logger.Println("ipfix has been shutdown")
-	close(ipfixUDPCh)
 }
 
 func (i *IPFIX) ipfixWorker(wQuit chan struct{}) {
